@@ -9,6 +9,33 @@ from model import CHANNEL_FNS, SEND_FNS, RECV_FNS, short
 IDX_FNS = ("std::ops::Index::index", "std::ops::IndexMut::index_mut")
 NODE_INDEX = "daggy::NodeIndex::<Ix>::index"
 CHILDREN = "daggy::Dag::<N, E, Ix>::children"
+NEIGHBORS_DIRECTED = "daggy::petgraph::Graph::<N, E, Ty, Ix>::neighbors_directed"
+NEIGHBORS = "daggy::petgraph::Graph::<N, E, Ty, Ix>::neighbors"
+
+
+def walk_direction(ctx, body_id, bb):
+    """'children' / 'parents' for a successor/predecessor walk created by the call at (body, bb): daggy's
+    children()/parents(), or petgraph's neighbors_directed(id, Outgoing|Incoming) / neighbors(id)"""
+    b = ctx.fb.bodies.get(body_id)
+    if b is None:
+        return None
+    t = b.blocks[bb]["term"]
+    p = callee_path(t)
+    if p == CHILDREN or p == NEIGHBORS:
+        return "children"
+    if p == PARENTS:
+        return "parents"
+    if p == NEIGHBORS_DIRECTED and len(t["args"]) == 3:
+        d = strip_refs(expr_operand(b, t["args"][2]))
+        if d.kind == "agg" and d[3] == "Outgoing":
+            return "children"
+        if d.kind == "agg" and d[3] == "Incoming":
+            return "parents"
+    return None
+
+
+def is_child_item(ctx, s):
+    return s.kind == "alloc" and "$item" in s[3] and s[4] in (CHILDREN, NEIGHBORS, NEIGHBORS_DIRECTED) and walk_direction(ctx, s[1], s[2]) == "children"
 PARENTS = "daggy::Dag::<N, E, Ix>::parents"
 NODE_COUNT_FNS = ("daggy::Dag::<N, E, Ix>::node_count", "daggy::petgraph::Graph::<N, E, Ty, Ix>::node_count")
 ALL_NODE_SOURCES = ("daggy::petgraph::visit::Topo::<N, VM>::new", "daggy::petgraph::Graph::<N, E, Ty, Ix>::node_indices",
@@ -965,7 +992,7 @@ def classify_sent_value(ctx, body, op):
     srcs = ctx.model.flow.sources_operand(body, op)
     kinds = set()
     for s in srcs:
-        if s.kind == "alloc" and s[4] == CHILDREN and "$item" in s[3]:
+        if is_child_item(ctx, s):
             kinds.add("child")
         elif s.kind == "alloc" and s[4] in ALL_NODE_SOURCES and "$item" in s[3]:
             kinds.add("all-nodes")
@@ -1167,9 +1194,21 @@ def check_preload_send(ctx, rule, b, bb, t, where, key):
     filters = []
     src = None
     bad = []
+    skip_leaf = False
     for p, cb, e in chain:
         if p.startswith("inline:") or p in NEUTRAL_ITER:
             continue
+        if skip_leaf and p.startswith("leaf:"):
+            continue
+        if p == "std::iter::from_fn" and e[2]:
+            # `from_fn(move || topo.next(g))`: every node, in topological order
+            fcl0 = closure_of_arg(ctx, cb, e[2][0])
+            re0 = return_expr(fcl0) if fcl0 is not None else None
+            if re0 is not None and strip_refs(re0).kind == "call" and strip_refs(re0)[1] == "daggy::petgraph::visit::Topo::<N, VM>::next" and not fcl0.back_edges() \
+                    and not any(blk["term"]["k"] == "switch" for blk in fcl0.blocks):
+                src = (p, cb, e)
+                skip_leaf = True
+                continue
         if p == "std::iter::Iterator::filter":
             filters.append((cb, e))
         elif p in ALL_NODE_SOURCES:
@@ -1229,7 +1268,7 @@ def check_preload_send(ctx, rule, b, bb, t, where, key):
         elif hits:
             why = "the preload send has further guards besides `COUNTS[id] == 0`"
     ctx.check(ok_filter, rule, "preload|%s" % key, where,
-              "preload sends exactly the ids with COUNTS[id] == 0 out of all nodes (%s) of the walked structure" % src[0].split("::")[-2],
+              "preload sends exactly the ids with COUNTS[id] == 0 out of all nodes (%s) of the walked structure" % "::".join(src[0].split("::")[-2:]),
               "preload is not `all nodes filtered by COUNTS[id] == 0`: %s" % why)
     # same structure as the counts' structure: the node source ranges over SETUP's chosen structure
     ssrc = sources_of_expr(ctx, src[1], src[2][2][0]) if src[2][2] else frozenset()
@@ -1382,7 +1421,7 @@ def S3(ctx, rule="S3"):
         st = sts[0]
         idv = node_index_arg(expr_operand(b, st["idx"]))
         isrcs = sources_of_expr(ctx, b, idv) if idv is not None else frozenset()
-        child_ok = bool(isrcs) and all(s.kind == "alloc" and s[4] == CHILDREN and "$item" in s[3] for s in isrcs)
+        child_ok = bool(isrcs) and all(is_child_item(ctx, s) for s in isrcs)
         ctx.check(child_ok, rule, "index-is-child|%s" % key, where,
                   "the decremented entry is that of the successor produced by `children(done_id)`",
                   "decremented index does not come from the children walk: %s" % [fmt_src(s) for s in isrcs])
@@ -1407,7 +1446,8 @@ def S3(ctx, rule="S3"):
             if True:
                 names = [p for p, _, _ in chain if not p.startswith("inline:")]
                 sel = [p for p in names if p in SELECTIVE_ITER or p.startswith("leaf") or p.startswith("opaque")]
-                ch = [(p, cb, e) for p, cb, e in chain if p == CHILDREN]
+                ch = [(p, cb, e) for p, cb, e in chain if p == CHILDREN or
+                      (p in (NEIGHBORS, NEIGHBORS_DIRECTED) and len(e) > 3 and walk_direction(ctx, cb.id, e[3]) == "children")]
                 if sel:
                     why = "walk is narrowed by %s" % sel
                 elif not ch:
@@ -2042,7 +2082,7 @@ def W3(ctx, rule="W3"):
             elif e.kind == "discr":
                 srcs = sources_of_expr(ctx, b, strip_refs(e[1]))
                 roles, other = m.roles_of_sources(srcs, half=0)
-                loop_ctl = bool(srcs) and all(x.kind == "alloc" and x[4] == CHILDREN for x in srcs)
+                loop_ctl = bool(srcs) and all(x.kind == "alloc" and x[4] in (CHILDREN, NEIGHBORS, NEIGHBORS_DIRECTED) for x in srcs)
                 done_item = m.is_done_item(srcs) or all(x.kind == "alloc" and x[4] in CHANNEL_FNS for x in srcs)
                 if roles != {"READY"} and not loop_ctl and not done_item and "READY" not in holder_roles(ctx, b, strip_refs(e[1])):
                     bad.append(fmt_expr(e, b))
